@@ -3,11 +3,13 @@
     [st] with mempool content [p]: [Alive st' p' effects] or [Crashed why]
     (the node process is gone).  [run] folds [step] over a history ([None] =
     crashed).  [under_recover ev]: the event is handled inside
-    handleBroadcastReceive (deferred recover).  [mem_ok c ev]: a light block's
-    Header.TxCount is not in the window [c_cap c < TxCount <= 2^45] where Go's
-    make neither panics nor can be satisfied by the operating system.
-    [fits_hist p0 evs]: every group any pool of the history returns for a short
-    hash of any light block of the history fits into that block's TxCount. *)
+    handleBroadcastReceive (deferred recover).  [mem_ok c ev]: the operating
+    system can provide a slice with one element per short hash of the light
+    block just received, [length (lt_sh lb) <= c_cap c] (addLtBlock sizes its
+    allocations with Header.TxCount only after 0 < TxCount <= len(STxHashes)
+    was tested; the hash list itself is already in memory, decoded).  This is
+    the only guard left; it is a statement about the node's memory, no longer
+    about a number the peer writes into a 60-byte message. *)
 From Coq Require Import List ZArith NArith Bool Lia.
 From C33 Require Import C33.Model C33.ProofsBase C33.ProofsMain C33.ProofsStep C33.ProofsThm.
 Import ListNotations.
@@ -15,104 +17,96 @@ Open Scope Z_scope.
 
 (** ** receive paths under recover *)
 
-(** full strength: no peer message handled under the recover ends the process *)
-Definition C33_recovered_paths_total_full : Prop :=
-  forall c st p ev, under_recover ev = true ->
-    exists st' p' e, step c st p ev = Alive st' p' e.
-
-(** refuted: Header.TxCount = 2^40 sizes the allocations of addLtBlock; the
-    run-time's out-of-memory abort is not a panic *)
-Theorem C33_recovered_paths_total_refuted : ~ C33_recovered_paths_total_full.
-Proof.
-  intros H. destruct (H cfg0 init pool_w ev_oom eq_refl) as [st' [p' [e E]]].
-  rewrite oom_crashes in E. discriminate.
-Qed.
-Print Assumptions C33_recovered_paths_total_refuted.
-
-(** partial (guard: boolean [mem_ok]): every other message - nil header,
-    negative / zero / huge counts, counts that disagree with the hash list,
-    groups of any length, undecodable or unknown peer messages - is processed
-    or dropped *)
+(** no peer message handled under the recover ends the process: nil header,
+    negative / zero / huge counts (TxCount = 2^40 included), counts that
+    disagree with the hash list, groups of any length, undecodable or unknown
+    peer messages are processed or dropped *)
 Theorem C33_recovered_paths_total : forall c st p ev,
   under_recover ev = true -> mem_ok c ev = true ->
   exists st' p' e, step c st p ev = Alive st' p' e.
 Proof. exact recovered_total. Qed.
 Print Assumptions C33_recovered_paths_total.
 
+(** the guard holds for the light block that used to abort the process
+    (TxCount = 2^40, three short hashes); the block is dropped, only the
+    duplicate filter remembers its header hash *)
 Theorem C33_recovered_guard_example :
   mem_ok cfg0 (ERecvLt 0 1%N 2%N (mkLt (Some (mkHdr (-1) 5 1%N 1%N)) None [1; 2]%N)) = true
-  /\ mem_ok cfg0 (ERecvLt 0 1%N 2%N lt_w) = true.
+  /\ mem_ok cfg0 (ERecvLt 0 1%N 2%N lt_w) = true
+  /\ mem_ok cfg0 ev_oom = true
+  /\ step cfg0 init pool_w ev_oom = Alive (mkSt [1%N] [] [] 0) pool_w [].
 Proof. vm_compute. auto. Qed.
 Print Assumptions C33_recovered_guard_example.
 
 (** ** the background loops (no recover) *)
 
-(** full strength: no history of peer messages, pool changes and loop
-    iterations ends the process (out-of-memory counts excluded) *)
-Definition C33_no_panic_outside_recover_full : Prop :=
-  forall c p0 evs, forallb (mem_ok c) evs = true -> run c init p0 evs <> None.
+(** no history of peer messages, pool changes and loop iterations ends the
+    process - whatever groups the pool returns, with or without a validator
+    (c_noval is any) *)
+Theorem C33_no_panic_outside_recover : forall c p0 evs,
+  forallb (mem_ok c) evs = true -> run c init p0 evs <> None.
+Proof. exact no_crash. Qed.
+Print Assumptions C33_no_panic_outside_recover.
 
-(** refuted: a pending light block of 3 slots whose last slot is later answered
-    by the pool with a 2-member group - index out of range in pendBlockLoop *)
-Theorem C33_no_panic_outside_recover_refuted : ~ C33_no_panic_outside_recover_full.
-Proof. intros H. exact (H cfg0 pool_w hist_overrun overrun_mem_ok overrun_crashes). Qed.
-Print Assumptions C33_no_panic_outside_recover_refuted.
+(** the history that used to kill the pending loop (a 3-slot block whose last
+    slot is later answered with a 2-member group) satisfies the guard; the
+    group is not expanded and the block stays pending with that slot empty *)
+Theorem C33_no_panic_example :
+  forallb (mem_ok cfg0) hist_overrun = true /\
+  match run cfg0 init pool_w hist_overrun with
+  | Some (st, _) => map pd_txs (st_pend st) = [[Some 11; Some 1; None]%N]
+  | None => False
+  end.
+Proof. exact overrun_survives. Qed.
+Print Assumptions C33_no_panic_example.
 
-(** partial (guards: validation not disabled, boolean [fits_hist]): when groups
-    fit, no history crashes *)
-Theorem C33_no_panic_outside_recover_partial : forall c p0 evs,
-  c_noval c = false ->
-  forallb (mem_ok c) evs = true -> fits_hist p0 evs = true -> run c init p0 evs <> None.
-Proof. exact no_crash_when_groups_fit. Qed.
-Print Assumptions C33_no_panic_outside_recover_partial.
+(** with and without a validator the honest history (the block arrives before
+    its last transactions, the pending loop completes it) hands the block over
+    and the loop goes on *)
+Theorem C33_validator_optional_example : forall c, c = cfg0 \/ c = cfg_noval ->
+  match run c init [] [ERecvLt 0 1%N 2%N lt_w; ETick 500000000] with
+  | Some (st, p) =>
+      length (st_pend st) = 1%nat /\
+      step c st p (EPool [(2%N, grp2)]) = Alive st [(2%N, grp2)] [] /\
+      exists st', step c st [(2%N, grp2)] (ETick 1500000000)
+                  = Alive st' [(2%N, grp2)]
+                          [Post 2%N (mkBlk 5 1%N 0%N [Some 11; Some 16; Some 17]%N)]
+                  /\ st_pend st' = []
+  | None => False
+  end.
+Proof. exact hist_fits_posts. Qed.
+Print Assumptions C33_validator_optional_example.
 
-(** the first guard is needed: with disableValidation the validator is nil and
-    the pending loop dies right after handing over a block it completed - an
-    honest history, the group fits *)
-Theorem C33_partial_needs_validation :
-  forallb (mem_ok cfg_noval) hist_fits = true /\ fits_hist [] hist_fits = true
-  /\ run cfg_noval init [] hist_fits = None.
-Proof. exact noval_crashes. Qed.
-Print Assumptions C33_partial_needs_validation.
-
-Theorem C33_partial_guard_example :
-  c_noval cfg0 = false /\ forallb (mem_ok cfg0) hist_fits = true /\ fits_hist [] hist_fits = true
-  /\ run cfg0 init [] hist_fits <> None.
-Proof. split; [|split; [|split]]; try (vm_compute; reflexivity). vm_compute. discriminate. Qed.
-Print Assumptions C33_partial_guard_example.
-
-(** every crash of every history is one of the three recorded ones: the group
-    overrun in an iteration of the pending loop, the out-of-memory abort at the
-    arrival of a light block whose TxCount is in the window, or (validation
-    disabled) the nil validator in the loop; in particular sTxHashes[i] can
-    never be out of range in the loop *)
+(** the guard is exactly what is needed: every crash of every history is the
+    out-of-memory abort at the arrival of a light block whose hash list is
+    longer than any slice the operating system can provide *)
 Theorem C33_crash_characterisation : forall c p0 evs,
   run c init p0 evs = None ->
   exists pre ev post st p,
-    evs = pre ++ ev :: post /\ run c init p0 pre = Some (st, p)
-    /\ (group_overrun_in_loop c st p ev \/ oom_on_arrival c st p ev \/ nil_validator_in_loop c st p ev).
+    evs = pre ++ ev :: post /\ run c init p0 pre = Some (st, p) /\ oom_on_arrival c st p ev.
 Proof. exact crash_characterisation. Qed.
 Print Assumptions C33_crash_characterisation.
 
-(** in every reachable state one iteration of pendBlockLoop completes or
-    panics at pd.block.Txs[index+j] = gtx or (validation disabled) at
-    p.val.addBroadcastMsg, nowhere else *)
-Theorem C33_loop_panics_only_at_group_expansion : forall c p0 evs st p now,
-  run c init p0 evs = Some (st, p) ->
-  tick_raw c p now st <> Fatal
-  /\ (forall w, tick_raw c p now st = Panic w -> w = W_GROUP \/ (c_noval c = true /\ w = W_NILVAL)).
-Proof. exact tick_only_group. Qed.
-Print Assumptions C33_loop_panics_only_at_group_expansion.
+(** in every reachable state one iteration of pendBlockLoop completes: the
+    loop body has no reachable panic site (sTxHashes[i], Txs[index],
+    Txs[index+j] are in range, the nil validator is not dereferenced) *)
+Theorem C33_loop_never_panics : forall c p0 evs st p now,
+  run c init p0 evs = Some (st, p) -> exists st' e, tick_raw c p now st = Ok (st', e).
+Proof. exact tick_total. Qed.
+Print Assumptions C33_loop_never_panics.
 
-(** light blocks with 0 < TxCount = |sTxHashes| (within memory) and groups that
-    fit do not panic at all in addLtBlock, recovered or not *)
-Theorem C33_wellformed_never_panics : forall c p now from pub lb st,
-  wellformed c lb = true -> fits p lb = true ->
+(** addLtBlock does not panic at all, recovered or not, on any light block
+    (malformed ones included) for which a slice as long as the hash list can
+    be made; 2^45 is Go's own limit for such a slice *)
+Theorem C33_light_block_never_panics : forall c p now from pub lb st,
+  Z.of_nat (length (lt_sh lb)) <= c_cap c -> Z.of_nat (length (lt_sh lb)) <= max_len ->
   exists st' e, add_lt c p now from pub lb st = Ok (st', e).
-Proof. exact wellformed_never_panics. Qed.
-Print Assumptions C33_wellformed_never_panics.
+Proof. exact add_lt_total. Qed.
+Print Assumptions C33_light_block_never_panics.
 
-Theorem C33_wellformed_example :
-  wellformed cfg0 lt_w = true /\ fits [(2%N, grp2)] lt_w = true.
-Proof. exact wellformed_example. Qed.
-Print Assumptions C33_wellformed_example.
+Theorem C33_light_block_example :
+  Z.of_nat (length (lt_sh lt_w)) <= c_cap cfg0 /\ Z.of_nat (length (lt_sh lt_w)) <= max_len
+  /\ add_lt cfg0 [(2%N, grp2)] 0 1%N 2%N lt_w init
+     = Ok (init, [Post 2%N (mkBlk 5 1%N 0%N [Some 11; Some 16; Some 17]%N)]).
+Proof. exact add_lt_total_example. Qed.
+Print Assumptions C33_light_block_example.
